@@ -1091,6 +1091,23 @@ def check_callback_wrappers(F, R, b):
                     "reports are dropped (a storage with capacity but no contents still holds heap memory)")
             if len(t["args"]) >= 2:
                 tup = operand_tree(cctx, t["args"][1])
+                if tup[0] == "agg" and len(tup[2]) == 2 and tup[2][0] not in params:
+                    # the size handed on is not the size reported: a reduction of it (minus a
+                    # constant, saturating_sub, min, halved) under-reports every pair the child
+                    # reports -- and a child may report several pairs, each reduced
+                    from expr import nobb as _nb2, show as _show2
+                    v0 = _nb2(tup[2][0])
+                    size_p = ("place", cb.key, ("arg", 2), ())
+                    reduces = (v0[0] == "bin" and v0[1] in ("Sub", "Div", "Shr", "Rem", "BitAnd") and v0[2] == size_p) or \
+                              (v0[0] == "call" and v0[1][1] in ("saturating_sub", "wrapping_sub", "checked_sub", "min") and v0[2] and v0[2][0] == size_p)
+                    if reduces:
+                        R.check("R-COVER(heap_size)", b.label(), False, construct="a wrapped callback passes the reported size on unreduced",
+                                where="%s:%s" % (cb.file, t["line"]),
+                                detail="the size passed on is %s: every pair the child reports loses that much -- a child that reports "
+                                       "several pairs, or whose first element is not what is subtracted, is under-reported" % _show2(v0)[:60])
+                    elif any(nd == size_p for nd in walk(v0)):
+                        R.undecided_site("R-COVER(heap_size)", b.label(), "a wrapped callback passes on a size computed from the reported "
+                                         "one (%s): not decided" % _show2(v0)[:60])
                 if tup[0] == "agg" and len(tup[2]) == 2 and all(x in params for x in tup[2]):
                     order = [x[2][1] for x in tup[2]]
                     R.check("R-COVER(heap_size)", b.label(), order == sorted(order) and order[0] != order[1],
